@@ -14,3 +14,4 @@ import ExaModel.Props.C05
 #print axioms Exa.Props.C05.reset_py_is_model
 #print axioms Exa.Props.C05.control_py_is_model
 #print axioms Exa.Props.C05.close_py_is_model
+#print axioms Exa.Props.C05.accepted_trace_satisfies
